@@ -197,7 +197,7 @@ func execC15(t *testing.T, cc any, o *Outcome) {
 	if !ok || len(o.Viols) > 0 || cp == nil {
 		return
 	}
-	parties := []*histState{{t: orig, text: orig.Newick()}, {t: cp, text: cp.Newick()}}
+	parties := []*histState{{t: orig, text: orig.Newick(), freshIndex: c.Index}, {t: cp, text: cp.Newick(), freshIndex: c.Index && c.Copy == "clone"}}
 	// the two parties draw fresh names from disjoint ranges
 	parties[1].serial = 1000
 	var hist, kinds []string
